@@ -140,7 +140,19 @@ def file_text(o: Dict[str, Any], scn: Dict[str, Any]) -> str:
     main, alt = FILES[fmt][1], ALT_SECTION[fmt]
     lines = {"main": [f"[{main}]"], "alt": [f"[{alt}]"],
              "emptyMain": [f"[{main}]", "# nothing is set here", f"[{alt}]"]}[scn.get("place", "main")]
-    if scn["file"]["has"]:
+    if scn["file"]["has"] and style in ("twinDashed", "twinAlias"):
+        # the option twice in the file, under two spellings; values always written quoted
+        v = scn["file"]["v"]
+        k1 = o["_"]["longs"][0][2:] if style == "twinAlias" else key
+        k2 = o["_"]["longs"][1][2:] if style == "twinAlias" else "--" + key
+        if kind == "append":
+            r1, r2 = ("[" + py_quote(concrete(o, x), '"') + "]" for x in v)
+        else:
+            r1, r2 = (py_quote(concrete(o, x), '"' if fmt == "toml" else "'") for x in (3 - v[0], v[0]))
+        if fmt == "toml" and k2.startswith("--"):
+            k2 = f'"{k2}"'
+        lines += [f"{k1} = {r1}", f"{k2} = {r2}"]
+    elif scn["file"]["has"]:
         v = scn["file"]["v"]
         if kind == "flag":
             word = "true" if v == [1] else "false"
@@ -341,7 +353,8 @@ def kf_ini_read_as_toml(w: Dict[str, Any]) -> bool:
     """Python twin of ConfigQuote.tla KF_IniReadAsToml: a pydoctor.ini whose text is also valid TOML is read with
     TOML's rules (observed = the TOML reading, or the abort TOML's list reading causes), not with the INI ones."""
     if w.get("kind") == "quote":
-        return w.get("fmt") == "ini" and bool(w.get("toml_valid")) and w.get("q") in ("single", "plain") \
+        return w.get("fmt") == "ini" and bool(w.get("toml_valid")) \
+            and (w.get("q") in ("single", "plain") or (w.get("q") in TRIPLE and "\n" in (w.get("text") or ""))) \
             and (w.get("observed") != w.get("expected") or bool(w.get("err")))
     if w.get("kind") == "merge":
         s = w["scn"]
@@ -382,9 +395,24 @@ HIST_INPUTS: Dict[str, Tuple[List[str], Dict[str, str]]] = {
     "nameTomlComment": ([], {"pyproject.toml": '[tool.pydoctor]\nproject-name = "Demo"  # comment\n'}),
     "verboseToml": ([], {"pyproject.toml": "[tool.pydoctor]\nverbose = 2\n"}),
     "defaultCfg": ([], {"setup.cfg": "[DEFAULT]\nproject-name = FromDefault\n\n[tool:pydoctor]\nverbose = 1\n"}),
+    # other tools' sections next to pydoctor's; pyproject.toml has no pydoctor table at all
+    "foreignBoth": ([], {"setup.cfg": "[metadata]\nname = demo\n\n[flake8]\nverbose = 2\n\n[tool:pydoctor]\nproject-name = Demo2\n",
+                         "pyproject.toml": "[tool.black]\nquiet = true\nline-length = 100\n"}),
+    # another tool in the process builds its own parsers (see hist_pre), then pydoctor parses an empty command line
+    "otherParsers": ([], {}),
 }
+
+
+def hist_pre(name: str) -> None:
+    if name == "otherParsers":
+        from pydoctor._configparser import IniConfigParser, TomlConfigParser
+        IniConfigParser(["flake8"], split_ml_text_to_list=False).parse(io.StringIO("[flake8]\nverbose = 2\n"))
+        TomlConfigParser(["tool.black"]).parse(io.StringIO("[tool.black]\nquiet = true\n"))
+
+
+HIST_VERB = {"verboseToml": 2, "defaultCfg": 1}
 HIST_PKGS = {"pkgToml": ["dir1"], "pkgCli": ["dir1"], "pkgCfg": ["dir2"]}
-HIST_NAME = {"nameCfg": "FromCfg", "nameTomlComment": "Demo", "defaultCfg": "FromDefault"}
+HIST_NAME = {"nameCfg": "FromCfg", "nameTomlComment": "Demo", "defaultCfg": "FromDefault", "foreignBoth": "Demo2"}
 HIST_CFG = """SPECIFICATION Spec
 CONSTANTS Inputs = {inputs}
           MaxLen = {maxlen}
@@ -406,10 +434,13 @@ def run_history(run: Runner, hist: Sequence[str]) -> List[Dict[str, Any]]:
             res = []
             for name in hist:
                 argv, files = HIST_INPUTS[name]
+                hist_pre(name)
                 got = run.run(argv, files)
                 fields = {} if got["exit"] else {k: repr(v) for k, v in attr.asdict(got["options"], recurse=False).items()}
                 sp = [] if got["exit"] else [p.name for p in got["options"].sourcepath if p.name != "src1"]
                 res.append({"i": name, "exit": got["exit"], "warn": got["warn"], "fields": fields, "pkgs": sp,
+                            "verb": 0 if got["exit"] else got["options"].verbosity + got["options"].quietness,
+                            "quiet": 0 if got["exit"] else got["options"].quietness,
                             "name": "-" if got["exit"] or got["options"].projectname is None else got["options"].projectname})
             with os.fdopen(wr, "w") as f:
                 json.dump(res, f)
@@ -429,8 +460,10 @@ def judge_history(hist: Sequence[str], steps: List[Dict[str, Any]], fresh: Dict[
     bad = []
     for k, st in enumerate(steps):
         i = st["i"]
-        if st["exit"] or st["pkgs"] != HIST_PKGS.get(i, []) or st["name"] != HIST_NAME.get(i, "-"):
-            bad.append({"step": k, "input": i, "clause": "Independent", "pkgs": st["pkgs"], "name": st["name"], "exit": st["exit"]})
+        if st["exit"] or st["pkgs"] != HIST_PKGS.get(i, []) or st["name"] != HIST_NAME.get(i, "-") \
+                or st.get("verb", 0) != HIST_VERB.get(i, 0) or st.get("quiet", 0) != 0:
+            bad.append({"step": k, "input": i, "clause": "Independent", "pkgs": st["pkgs"], "name": st["name"],
+                        "verbose": st.get("verb"), "quiet": st.get("quiet"), "exit": st["exit"]})
         elif st["fields"] != fresh[i]["fields"] or st["warn"] != fresh[i]["warn"]:
             diff = {f: [st["fields"].get(f, "")[:100], v[:100]] for f, v in fresh[i]["fields"].items() if st["fields"].get(f) != v}
             bad.append({"step": k, "input": i, "clause": "SameAsFreshProcess", "differs": diff})
@@ -456,8 +489,8 @@ def part_history(ctx: Ctx) -> int:
         ctx.traces += 1
         nontrivial += len(rec["hist"]) > 1
         bad = judge_history(rec["hist"], steps, fresh)
-        model = [[o["i"], o["pkgs"], o["name"]] for o in rec["out"]]
-        real = [[st["i"], st["pkgs"], st["name"]] for st in steps]
+        model = [[o["i"], o["pkgs"], o["name"], o["verb"], o["quiet"]] for o in rec["out"]]
+        real = [[st["i"], st["pkgs"], st["name"], st["verb"], st["quiet"]] for st in steps]
         if bad:
             ctx.violation({"invariant": "ParseIndependent", "kind": "history", "history": rec["hist"],
                            "inputs": {i: {"argv": HIST_INPUTS[i][0], "files": HIST_INPUTS[i][1]} for i in rec["hist"]},
@@ -471,7 +504,7 @@ def part_history(ctx: Ctx) -> int:
                             "each_run_in_a_forked_child": True}
     # design-level negative controls: a process that remembers must violate Independent in the model
     nc = {}
-    for memory in ("packages", "format", "defaults"):
+    for memory in ("packages", "format", "defaults", "sections"):
         r2 = ctx.tlc("ConfigHistory", HIST_CFG.format(inputs=tla(set(HIST_INPUTS)), maxlen=2, memory=memory).replace("CONSTRAINT Emit\n", ""),
                      workers=1, timeout=600, count=False)
         nc[memory] = "Independent" in r2.violated
@@ -593,7 +626,10 @@ TRIPLE = {"tsingle": "'", "tdouble": '"'}
 def q_applicable(t: str, q: str) -> bool:
     if q in TRIPLE:                                  # content verbatim between triple quotes
         c = TRIPLE[q]
-        return "\\" not in t and "\n" not in t and not t.endswith(c) and c * 3 not in t
+        lines = t.split("\n")               # several lines: continuation lines of the INI value (ConfigQuote!LinesOK)
+        lines_ok = all((i == 0 or (l[:1] not in (" ", "#") and (l != "" or i == len(lines) - 1)))
+                       and (i == len(lines) - 1 or not l.endswith(" ")) for i, l in enumerate(lines))
+        return "\\" not in t and lines_ok and not t.endswith(c) and c * 3 not in t
     if q == "literal":
         return "'" not in t and "\n" not in t
     if q == "plain":
@@ -604,7 +640,8 @@ def q_applicable(t: str, q: str) -> bool:
 def q_encode(t: str, q: str) -> str:
     return {"single": lambda: py_quote(t, "'"), "double": lambda: py_quote(t, '"'), "basic": lambda: py_quote(t, '"'),
             "literal": lambda: "'" + t + "'", "plain": lambda: t,
-            "tsingle": lambda: "'''" + t + "'''", "tdouble": lambda: '"""' + t + '"""'}[q]()
+            "tsingle": lambda: "'''" + t.replace("\n", "\n    ") + "'''",
+            "tdouble": lambda: '"""' + t.replace("\n", "\n    ") + '"""'}[q]()
 
 
 def chars(t: str) -> List[str]:
@@ -656,10 +693,11 @@ def quote_table(ctx: Ctx, rng: random.Random, run: Runner, parser: Any, strings:
             if fmt != "toml" and q != "plain":           # a Python literal: CPython is the referee of the encoding
                 with warnings.catch_warnings():
                     warnings.simplefilter("ignore")
-                    if ast.literal_eval(w) != t:
+                    as_read = w.replace("\n    ", "\n") if q in TRIPLE else w      # configparser strips continuation lines
+                    if ast.literal_eval(as_read) != t:
                         raise MachineryError(f"ConfigQuote.tla's Encode({t!r}, {q}) = {w!r} does not mean that text in Python")
                 try:
-                    u = unquote_str(w)
+                    u = unquote_str(as_read)
                 except Exception as ex:
                     u = f"<{type(ex).__name__}>"
             e2e = len(t) <= 1 or rng.random() < e2e_prob
